@@ -3,5 +3,7 @@ EXTENDS Fallback, Json
 MCCfgSet == [strat : {"value", "valuefn", "fromerr", "fromreq", "service", "exception"}, pred : {0, 1}, bk : {"ok", "err"}]
 MCOuts == {"ok", "e1", "e2"}
 Inv == SuccessUntouched /\ BackupOnlyWhenNeeded
+\* transition tour: every transition of the (small) model, printed with the level of its source state
+TourDump == PrintT(<<"EDGE", TLCGet("level"), ToJson([f |-> view, t |-> view', cfg |-> cfg, ev |-> ev'])>>)
 GenPrint == PrintT(<<"GEN", TLCGet("level"), ToJson([cfg |-> cfg, ev |-> ev])>>)
 =============================================================================
